@@ -224,3 +224,7 @@ package tchannel
 //@   ensures initial ==> wf.frame.Header.messageType == messageTypeCallReq
 //@   ensures !initial ==> wf.frame.Header.messageType == messageTypeCallReqContinue
 //@   property C04 C08
+
+// (the call-req path counts for C08 too: ttl clamp, remapped ids, hand-over)
+//@ func (r *Relayer) handleCallReq(f *lazyCallReq) (shouldRelease bool, err error)
+//@   property C08
